@@ -515,11 +515,12 @@ class CheckedCoverageInstrumentation(python3_11.CheckedCoverageInstrumentation):
                     )
                 )
             case "BINARY_SLICE":
-                # Instrumentation mostly after the original instruction
-                node.basic_block[override(instr_index)] = (
-                    self.instructions_generator.generate_overriding_instructions(
-                        InstrumentationSetupAction.COPY_THIRD_SHIFT_DOWN_THREE,
-                        instr,
+                # Instrumentation before the original instruction. In contrast to
+                # STORE_SLICE, BINARY_SLICE pushes its result, so a copy of the container
+                # that is shifted below the operands would end up below the result.
+                node.basic_block[before(instr_index)] = (
+                    self.instructions_generator.generate_instructions(
+                        InstrumentationSetupAction.COPY_THIRD,
                         method_call,
                         instr.lineno,
                     )
